@@ -72,6 +72,9 @@ class error_997_visitor(error_visitor.error_visitor):
         self.isa_control_num = ('%s%s' % (time.strftime('%y%m%d'),
                                           time.strftime('%H%M')))[1:]
         icvn = seg.get_value('ISA12')
+        if icvn not in ('00401', '00501'):
+            # a stray ISA inside the data may carry anything; these are the versions that can be read back
+            icvn = '00401'
         isa_seg = pyx12.segment.Segment('ISA*00*          *00*          ',
                                         self.seg_term, self.ele_term, self.subele_term)
         # ISA elements are fixed width; the values come from a received ISA that may be malformed
